@@ -137,3 +137,57 @@ func testConformance(given Type, want Type, path Path, errs *[]error) {
 		errorf(path, "%s required, but received %s", want.FriendlyName(), given.FriendlyName()),
 	)
 }
+
+// typesCouldBeEqual returns true if there is some way to replace each
+// occurrence of DynamicPseudoType in either of the given types with a concrete
+// type so that the two types become equal.
+//
+// This differs from conformance in that placeholders are allowed on both
+// sides at once, so it is the appropriate test for whether two values whose
+// types are both not wholly known could still turn out to be equal.
+func typesCouldBeEqual(a, b Type) bool {
+	if a == DynamicPseudoType || b == DynamicPseudoType {
+		return true
+	}
+	switch {
+	case a.IsPrimitiveType() || a.IsCapsuleType():
+		return a.Equals(b)
+	case a.IsListType():
+		return b.IsListType() && typesCouldBeEqual(a.ElementType(), b.ElementType())
+	case a.IsSetType():
+		return b.IsSetType() && typesCouldBeEqual(a.ElementType(), b.ElementType())
+	case a.IsMapType():
+		return b.IsMapType() && typesCouldBeEqual(a.ElementType(), b.ElementType())
+	case a.IsTupleType():
+		if !b.IsTupleType() {
+			return false
+		}
+		aTys, bTys := a.TupleElementTypes(), b.TupleElementTypes()
+		if len(aTys) != len(bTys) {
+			return false
+		}
+		for i := range aTys {
+			if !typesCouldBeEqual(aTys[i], bTys[i]) {
+				return false
+			}
+		}
+		return true
+	case a.IsObjectType():
+		if !b.IsObjectType() {
+			return false
+		}
+		aTys, bTys := a.AttributeTypes(), b.AttributeTypes()
+		if len(aTys) != len(bTys) {
+			return false
+		}
+		for name, aTy := range aTys {
+			bTy, ok := bTys[name]
+			if !ok || !typesCouldBeEqual(aTy, bTy) {
+				return false
+			}
+		}
+		return true
+	default:
+		return a.Equals(b)
+	}
+}
